@@ -215,11 +215,14 @@ class C18(SeqCheck):
                   "dpipe is FIFO with truncation and the two ends close independently. Tied to the code by differential histories: real "
                   "Bridge (reader goroutine parked, Tick) and real dpipe against the extracted models, every answer compared")
     level_note = ("trusted: Coq kernel, extraction + driver, harness (runs in testing/synctest bubbles: synctest.Wait says when the Bridge reader is parked and when it has returned; "
-                  "a read that gets nothing is released through its read deadline); loss chance 0 and no write deadlines; Bridge.Drop with an offset beyond "
+                  "a read that gets nothing is released through its read deadline); loss chance 0; write deadlines on dpipe only, and not on an end that "
+                  "is closed as well (Write then picks one of its two errors at random); Bridge.Drop with an offset beyond "
                   "the queue panics in Go and is not issued")
     rule = ("Bridge: 15-75 operations: writes in both directions (messages of 0..20 bytes, first byte a counter), reads with slices of "
             "64/5/2/0 bytes, DropNextNWrites, ReorderNextNWrites (1,2,3,4,0; repeated), Drop(offset,n), Reorder, Filter (4 kinds), Len, "
-            "Close, Tick, then both directions drained; dpipe: writes/reads/Close on both ends then drained. non-trivial = at least 3 "
+            "Close, Tick, then both directions drained; dpipe: writes/reads/Close on both ends, a write deadline of one end passing or being "
+            "cleared (5% of the operations: a write then fails and discards that end's queued messages, never the other direction's), then "
+            "drained; one history per run fills the 1000-slot queue. non-trivial = at least 3 "
             "messages delivered; distinct = distinct operation list")
     assumptions = ["sequential use of the Bridge control methods (they all take br.mutex)"]
 
@@ -518,7 +521,9 @@ class C17(VSchedCheck):
                   "Close racing with operations is not modelled; vrewrite, vsched and synctest are trusted")
     rule = ("1-4 consecutive operations of one of the six kinds (netctx Conn Read/Write, PacketConn ReadFrom/WriteTo, connctx Read/Write) on one "
             "wrapper; per operation 6-20 scheduling decisions with cancellation (cancel function or elapsed timeout) and readiness of the wrapped "
-            "connection inserted at random points (together, apart, or absent), occasionally a second operation started early so that it competes for "
+            "connection inserted at random points (together, apart, or absent), also: the peer taking half of a parked write, empty payloads and "
+            "empty datagrams, a transient non-timeout error of the wrapped connection (1 operation in 4), a refused deadline call (1 in 8), contexts "
+            "created with a cause (WithCancelCause / WithTimeoutCause); occasionally a second operation started early so that it competes for "
             "the direction's mutex and cancellations before the lock is taken; then run to quiescence, unblocking an operation that waits like the "
             "wrapped connection by cancelling or delivering; non-trivial = at least one cancellation and 12 model events; distinct = distinct "
             "(kind, decisions)")
@@ -526,7 +531,9 @@ class C17(VSchedCheck):
                "testing/synctest (detection of parked/blocked goroutines, virtual clock for context timeouts)",
                "the in-memory wrapped connection of harness/ctx and the translation of its log into model events"]
     assumptions = ["the wrapped connection honours SetReadDeadline/SetWriteDeadline as net.Conn documents (a past deadline fails a blocked operation "
-                   "with a timeout; the zero value removes the deadline)", "operations on one direction at a time (read and write directions are independent)"]
+                   "with a timeout; the zero value removes the deadline); when it refuses a deadline call (modelled: the recorded error, byte counts "
+                   "and the context-error rule are still compared) nothing is claimed about deadlines afterwards (theorem hypothesis tainted = false)",
+                   "operations on one direction at a time (read and write directions are independent)"]
 
     def model_postprocess(self, line, model_obs):
         return model_obs + "|0"
